@@ -6,6 +6,8 @@ pub mod c01;
 pub mod c02;
 pub mod c03;
 pub mod c04;
+pub mod c08;
+pub mod c10;
 
 pub struct Entry {
     pub id: &'static str,
@@ -21,7 +23,7 @@ pub fn lookup(id: &str) -> Option<&'static Entry> {
     ALL.iter().find(|e| e.id == id)
 }
 
-pub static ALL: &[Entry] = &[c01::ENTRY, c02::ENTRY, c03::ENTRY, c04::ENTRY];
+pub static ALL: &[Entry] = &[c01::ENTRY, c02::ENTRY, c03::ENTRY, c04::ENTRY, c08::ENTRY, c10::ENTRY];
 
 pub fn replay(ctx: &Ctx, path: &str) -> i32 {
     common::replay_file(ctx, path)
